@@ -60,6 +60,30 @@ def generate(ctx):
                 fa2 = falib.rand_fa(rng, kind="dfa", names="plain", max_states=3, max_syms=2)
                 fa = dict(fa2, kind=kind)
             c["fa"] = fa
+            if left == "pda" and kind in ("nfa", "enfa") and rng.random() < 0.3:
+                # (pda & r1) & r2: the second product is built on product states
+                fa2 = falib.rand_fa(rng, kind=rng.choice(["nfa", "enfa"]), names="plain", max_states=2, max_syms=2, profile="multi")
+                sh = {"p": "q", "q": "r"}       # subset names of the two automata can then be split in two ways: "p;q" + "r" and "p" + "q;r"
+                c["fa2"] = dict(fa2, states=[sh[x] for x in fa2["states"]], trans=[[sh[a], l, sh[b]] for a, l, b in fa2["trans"]],
+                                starts=[sh[x] for x in fa2["starts"]], finals=[sh[x] for x in fa2["finals"]])
+                if rng.random() < 0.5:
+                    # determinisation of the first gives the subset states "p" and "p;q", of the second "q;r" and "r"
+                    a = terms[0]
+                    c["fa"] = {"kind": "nfa", "states": ["p", "q"], "symbols": [a], "trans": [["p", a, "p"], ["p", a, "q"]], "starts": ["p"],
+                               "finals": ["q"] if rng.random() < 0.7 else ["p", "q"], "profile": "subset-names", "names": "plain"}
+                    tr2 = rng.choice([[["q", a, "r"], ["r", a, "r"]], [["q", a, "q"], ["r", a, "r"]], [["q", a, "r"], ["r", a, "q"]],
+                                      [t for t in [["q", a, "q"], ["q", a, "r"], ["r", a, "r"], ["r", a, "q"]] if rng.random() < 0.6]])
+                    c["fa2"] = {"kind": "nfa", "states": ["q", "r"], "symbols": [a], "trans": tr2, "starts": ["q", "r"],
+                                "finals": [rng.choice(["q", "r"])], "profile": "subset-names", "names": "plain"}
+                    c["rkind"] = "nfa"
+                    p2 = pdalib.rand_pda(rng, max_states=2, max_stack=1, max_trans=4, profile="falike")
+                    if rng.random() < 0.5:      # a* by final state
+                        p2 = {"states": ["q0"], "inputs": [a], "stack": ["Z"], "trans": [["q0", a, "Z", "q0", ["Z"]]], "start": "q0", "z0": "Z",
+                              "finals": ["q0"], "profile": "falike", "names": "plain"}
+                    if a in p2["inputs"]:
+                        c["p"] = p2
+                        c["g"] = {"profile": "pda:" + p2["profile"], "prods": [], "terms": p2["inputs"]}
+                c["with_model"] = False
         cases.append(c)
     return cases
 
@@ -95,6 +119,8 @@ def impl(case):
         left = cfglib.build_cfg(case["g"]) if case["op"] == "cfg_inter" else pdalib.build_pda(case["p"])
     try:
         res = (left & other) if case.get("operator") else left.intersection(other)
+        if "fa2" in case:
+            res = res.intersection(falib.build_fa(case["fa2"]))
     except NotImplementedError:
         return {"refused": "NotImplementedError"}
     out = {"cfg": cfglib.extract_cfg(res)} if case["op"] == "cfg_inter" else {"pda": pdalib.extract_pda(res)}
@@ -136,6 +162,8 @@ class _Ext:
         pj = PdaInterner(sym=ci.ter)
         R = coq_pda(obs["pda"], pj)
         ref = "(fun w => pda_accepts_final %s w && accepts %s w)" % (P, A)
+        if "fa2" in case:
+            ref = "(fun w => pda_accepts_final %s w && accepts %s w && accepts %s w)" % (P, A, falib.coq_enfa(case["fa2"], ci.ter))
         m = "pda_inter_model_diff %s %s %s %s" % (P, A, ref, ws) if case.get("with_model") else "@None (list N)"
         return "(first_diff %s (pda_accepts_final %s) %s, %s)" % (ref, R, ws, m)
 
